@@ -153,6 +153,7 @@ package keeper
 //@ spec wfRequests(s Store) Bool = len(s[types.RequestLastExpiredStoreKey]) == 8 && len(s[types.RequestCountStoreKey]) == 8
 //@      && reqCount(s) < MaxUint64 && lastExpired(s) <= reqCount(s)
 //@      && (forall id Int :: lastExpired(s) < id && id <= reqCount(s) ==> has(s, types.RequestStoreKey(id)) && 0 <= oreqAt(s, id).RequestHeight)
+//@ spec missedBy(s0 Store, v Addr, lo Int, hi Int) Bool = vstatus(s0, v).IsActive && (exists id Int :: lo < id && id <= hi && vstatus(s0, v).Since < oreqAt(s0, id).RequestTime * 1000000000)
 // (expiry is stated over the integers, for EVERY value of the expiration_block_count parameter: F9)
 //@ func (k Keeper) ProcessExpiredRequests
 //@ modifies Store_oracle, Other
@@ -166,6 +167,13 @@ package keeper
 // ... and only requests whose expiration height has been reached are passed; the walk stops at the first one that has not
 //@ ensures  forall id Int :: old(lastExpired(Store_oracle)) < id && id <= lastExpired(Store_oracle) ==> old(oreqAt(Store_oracle, id)).RequestHeight + old(oracleParams(Store_oracle)).ExpirationBlockCount <= ctx.BlockHeight()
 //@ ensures  lastExpired(Store_oracle) < old(reqCount(Store_oracle)) ==> (let id = lastExpired(Store_oracle) + 1 in old(oreqAt(Store_oracle, id)).RequestHeight + old(oracleParams(Store_oracle)).ExpirationBlockCount > ctx.BlockHeight())
+// C15: whoever's oracle status changes in this sweep was ACTIVE and had been so since BEFORE the time one of the swept
+// requests was made (request time = its whole-second timestamp, not a moment later): nobody is deactivated for a request
+// made before it (re)activated
+//@ ensures forall v Addr :: vstatus(Store_oracle, v) != old(vstatus(Store_oracle, v)) ==> missedBy(old(Store_oracle), v, old(lastExpired(Store_oracle)), lastExpired(Store_oracle))
+//@ loop 0: invariant forall v Addr :: vstatus(Store_oracle, v) != old(vstatus(Store_oracle, v)) ==> missedBy(old(Store_oracle), v, old(lastExpired(Store_oracle)), currentReqID - 1)
+//@ loop 1: invariant forall v Addr :: vstatus(Store_oracle, v) != old(vstatus(Store_oracle, v)) ==> missedBy(old(Store_oracle), v, old(lastExpired(Store_oracle)), currentReqID)
+//@ loop 1: invariant req == oreqAt(old(Store_oracle), currentReqID)
 //@ loop 0: invariant forall id Int :: old(lastExpired(Store_oracle)) < id && id < currentReqID ==> old(oreqAt(Store_oracle, id)).RequestHeight + old(oracleParams(Store_oracle)).ExpirationBlockCount <= ctx.BlockHeight()
 //@ loop 0: invariant expirationBlockCount == old(oracleParams(Store_oracle)).ExpirationBlockCount
 //@ loop 0: invariant forall id Int :: old(lastExpired(Store_oracle)) < id && id <= lastReqID ==> 0 <= old(oreqAt(Store_oracle, id)).RequestHeight
@@ -393,3 +401,20 @@ package keeper
 // protobuf encoding of a result (codec): assumed
 //@ func (k Keeper) MarshalResult
 //@ trusted
+
+// ---- C13: data-source fees are paid to the treasury the owner last set -------------------------------------------------
+// An accepted edit comes from the data source's owner and makes the treasury, the fee and the owner exactly what the
+// message says (CollectFee pays the stored treasury: an edit that silently keeps the old one sends later fees to an
+// account the owner has moved away from). File storage and decompression: assumed.
+//@ spec dsAt(s Store, id Int) types.DataSource = dec(types.DataSource, s[types.DataSourceStoreKey(id)])
+//@ func (k Keeper) AddExecutableFile
+//@ trusted
+//@ extern github.com/bandprotocol/chain/v3/pkg/gzip.IsGzipped(data) (result)
+//@ extern github.com/bandprotocol/chain/v3/pkg/gzip.Uncompress(data, maxSize) (result, err)
+//@ func (k msgServer) EditDataSource
+//@ may_panic calls
+//@ modifies Store_oracle, msg
+//@ ensures err == nil ==> old(has(Store_oracle, types.DataSourceStoreKey(msg.DataSourceID))) && bech32ok(msg.Sender) && bech32ok(old(dsAt(Store_oracle, msg.DataSourceID)).Owner) && bech32addr(old(dsAt(Store_oracle, msg.DataSourceID)).Owner) == bech32addr(msg.Sender)
+//@ ensures err == nil ==> bech32ok(msg.Treasury) && dsAt(Store_oracle, msg.DataSourceID).Treasury == addrstr(bech32addr(msg.Treasury))
+//@ ensures err == nil ==> bech32ok(msg.Owner) && dsAt(Store_oracle, msg.DataSourceID).Owner == addrstr(bech32addr(msg.Owner)) && dsAt(Store_oracle, msg.DataSourceID).Fee == msg.Fee
+//@ ensures err != nil ==> Store_oracle == old(Store_oracle)
